@@ -97,7 +97,7 @@ type Ref struct {
 	loading map[string]bool
 	Libs    map[string]map[string]V
 	lastVal V
-	Main *modEnv
+	Main    *modEnv
 	// TraceWithText: see zn.TraceWithText
 	TraceWithText bool
 	// Open is set when the run depended on something the statement leaves open
